@@ -112,7 +112,8 @@ def generate(rng, tier, idx):
     ops = []
     for _ in range(rng.choice([1, 2, 3])):
         ops.append({'op': rng.choice(['verify', 'verify', 'verify-kg', 'update', 'create', 'unregistered', 'cli-verify', 'cli-update',
-                                      'cli-verify-2', 'cli-update-2']),
+                                      'cli-verify-2', 'cli-update-2', 'verify-sub', 'verify-sub', 'unregistered-sub']),
+                    'pick': rng.randrange(0, 100),
                     'xdev': rng.random() < 0.6})
     # the Manifest still records a FILE at the path where the other filesystem is now linked in (a recorded file
     # later replaced by a link to a directory elsewhere); used for one-file-system verification only
@@ -212,10 +213,23 @@ def execute(sc):
             kind = op['op']
             xdev = op.get('xdev', True)
             g = g_all if kind == 'create' else g_ign     # a fresh Manifest has no IGNOREs
+            subw = None
+            if kind in ('verify-sub', 'unregistered-sub'):
+                # the walk starts below the top directory: ancestors are counted from where it starts
+                cands_ = [d_ for d_ in g['dirs'] if os.path.realpath(os.path.join(root, d_)) == os.path.normpath(os.path.join(root, d_))
+                          and not any(d_ == i_ or d_.startswith(i_ + '/') or i_.startswith(d_ + '/') for i_ in ignores)]
+                if not cands_:
+                    zones['no-sub-directory-to-start-from'] = zones.get('no-sub-directory-to-start-from', 0) + 1
+                    continue
+                subw = cands_[op.get('pick', 0) % len(cands_)]
+                g = walk_graph(os.path.join(root, subw), base, [], mounts, default_dev)
+                g = dict(g, devs=dict((pjoin(subw, k_) if k_ else subw, v_) for k_, v_ in g['devs'].items()),
+                         dirs=[pjoin(subw, k_) for k_ in g['dirs']], loops=[pjoin(subw, k_) for k_ in g['loops']])
+                counters['walks_started_below_the_top'] = counters.get('walks_started_below_the_top', 0) + 1
             foreign = sorted(v for v, dv in g['devs'].items() if dv != man_dev)
-            if kind == 'unregistered':
+            if kind in ('unregistered', 'unregistered-sub'):
                 # the scan inspects directories only; it neither verifies nor records files
-                foreign = [v for v in foreign if v == '' or v in g['dirs']]
+                foreign = [v for v in foreign if v == '' or v == subw or v in g['dirs']]
             has_loop = bool(g['loops'])
             hidden_foreign = None
             # (re)write the Manifest: earlier update ops may have rewritten it
@@ -255,12 +269,16 @@ def execute(sc):
                         counters['listed_file_in_hidden_foreign_directory'] = counters.get('listed_file_in_hidden_foreign_directory', 0) + 1
                 with _o['open'](top, 'w', encoding='utf8') as f:
                     f.write(mt_)
-            walks = {'verify': 1, 'verify-kg': 1, 'cli-verify': 1, 'cli-verify-2': 2, 'unregistered': 1}.get(kind, 4)
+            walks = {'verify': 1, 'verify-sub': 1, 'unregistered-sub': 1, 'verify-kg': 1, 'cli-verify': 1, 'cli-verify-2': 2, 'unregistered': 1}.get(kind, 4)
             cap = 150 + 14 * walks * (g['visits'] + 2)
             kw = {} if xdev else {'allow_xdev': False}
             with seam:
                 seam.begin_op(i, step_cap=cap)
-                if kind == 'verify':
+                if kind == 'verify-sub':
+                    r = call(lambda: ManifestRecursiveLoader(top, **kw).assert_directory_verifies(subw))
+                elif kind == 'unregistered-sub':
+                    r = call(lambda: ManifestRecursiveLoader(top, **kw).load_unregistered_manifests(subw) == [])
+                elif kind == 'verify':
                     r = call(lambda: ManifestRecursiveLoader(top, **kw).assert_directory_verifies(''))
                 elif kind == 'verify-kg':
                     r = call(lambda: ManifestRecursiveLoader(top, **kw).assert_directory_verifies('', fail_handler=lambda e: False))
@@ -323,6 +341,11 @@ def execute(sc):
                 continue
             if g['file_loops'] and kind in ('update', 'create', 'cli-update', 'cli-update-2') and r[0] == 'GE' and not is_loop and not is_xdev:
                 zones['file-symlink-loop-invalid-path'] = zones.get('file-symlink-loop-invalid-path', 0) + 1
+                continue
+            if kind == 'verify-sub' and (has_loop or foreign) and r[0] == 'GE' and r[1] == 'ManifestMismatch':
+                # a walk started below the top that follows a link upwards sees the upper tree under new names (stray
+                # for the Manifest) before it closes the loop: whichever failure the walk order meets first
+                zones['sub-walk:stray-before-structural'] = zones.get('sub-walk:stray-before-structural', 0) + 1
                 continue
             if has_loop or expect_xdev:
                 ok = (has_loop and is_loop) or (expect_xdev and is_xdev)
